@@ -51,7 +51,7 @@ impl VmSession {
     pub fn new() -> Self {
         VmSession { vm: Vm::new() }
     }
-    fn load_quantity(&mut self, a: f64, u: &Unit) {
+    pub fn load_quantity(&mut self, a: f64, u: &Unit) {
         let ca = self.vm.add_constant(Constant::Scalar(a));
         let cu = self.vm.add_constant(Constant::Unit(u.clone()));
         self.vm.add_op1(Op::LoadConstant, ca, sp());
